@@ -298,7 +298,7 @@ func c20Spec() s1Spec {
 		Rule: "scripts with a stats.Counter attached; after every action the snapshot must equal the harness tally: one hit or miss per counting lookup (hit iff the model held a live entry), one per distinct BulkGet key, none for quiet reads/Refresh/SetIfAbsent/Set/Invalidate, " +
 			"load successes + failures == loader invocations, #Overflow events <= evictions <= #Overflow + #Expiration events (weights likewise), counters monotone; " +
 			"non-trivial = >= 1 lookup on an expired-unswept key or a bulk call with duplicates/mixed hits, and >= 10 counted lookups",
-		Profile: &vh.Profile{Name: "c20", Stats: true, Executors: both(), MinLen: 1, MaxLen: 80, MaxKeys: 6,
+		Profile: &vh.Profile{Name: "c20", Stats: true, BigWeights: true, Executors: both(), MinLen: 1, MaxLen: 80, MaxKeys: 6,
 			Ops: with(vh.BaseOps(), "get", 10, "bulkget", 10, "getifpresent", 10, "getentry", 6, "computeifabsent", 6, "computeifpresent", 6, "compute", 6)},
 		Facets:       vh.FStats | vh.FPanic,
 		FinalQuiesce: true,
@@ -323,7 +323,7 @@ func c20Spec() s1Spec {
 // ---- C04 / C05 / C06 on S1 (late maintenance as data) --------------------
 
 func quiesceProfile(name string) *vh.Profile {
-	return &vh.Profile{Name: name, Executors: both(), MinLen: 1, MaxLen: 100, MaxKeys: 10, ExtremeDur: true, // incl. "never expires" deadlines (MaxInt64) that are shortened later
+	return &vh.Profile{Name: name, Executors: both(), MinLen: 1, MaxLen: 100, MaxKeys: 10, ExtremeDur: true, BigWeights: true, // incl. "never expires" deadlines (MaxInt64) that are shortened later
 		Ops: with(vh.BaseOps(), "set", 24, "quiesce", 3, "runtasks", 8, "setmaximum", 3, "invalidate", 6, "compute", 8, "iter", 3)}
 }
 
